@@ -6,7 +6,7 @@ import MiniMcmcVerif.Model.Categorical
 namespace MiniMcmcVerif.Driver
 open MiniMcmcVerif MiniMcmcVerif.Categorical
 
-/-- `c16 <id> f64|f32 <r bits> ; w0 w1 …` → `<id> p0 p1 … # idx # logp(idx) logp(len)`
+/-- `c16 <id> f64|f32 <r bits> ; w0 w1 …` → `<id> p0 p1 … # idx # logp(idx) logp(len) # logp(0) … logp(len-1)`
     probabilities and index are compared exactly (same sequential IEEE operations), log-probabilities tolerantly. -/
 def c16 (args : List String) : String :=
   match args with
@@ -18,6 +18,7 @@ def c16 (args : List String) : String :=
         let k := sampleIdx p r
         let lp (i : Nat) : Float := if i < p.length then Float.log (p.getD i 0) else Float.log 0
         id ++ " " ++ join (p.map f64ToHex) ++ " # " ++ toString k ++ " # " ++ tokD (lp k) ++ " " ++ tokD (lp p.length)
+          ++ " # " ++ join ((List.range p.length).map fun i => tokD (lp i))
       | _, _ => id ++ " bad-op"
     else if ty = "f32" then
       match f32OfHex rtok, parseF32s ws with
@@ -26,6 +27,7 @@ def c16 (args : List String) : String :=
         let k := sampleIdx p r
         let lp (i : Nat) : Float32 := if i < p.length then Float32.log (p.getD i 0) else Float32.log 0
         id ++ " " ++ join (p.map f32ToHex) ++ " # " ++ toString k ++ " # " ++ tokS (lp k) ++ " " ++ tokS (lp p.length)
+          ++ " # " ++ join ((List.range p.length).map fun i => tokS (lp i))
       | _, _ => id ++ " bad-op"
     else id ++ " bad-op"
   | _ => "bad-op"
